@@ -14,7 +14,12 @@ pub struct Session {
 
 /// Connect through Connector::connect over TLS (SSL selected, no NLA, EC certificate: the cheapest
 /// real path to an RdpClient). The server does not start the activation by itself.
-pub fn open_real(mut profile: Profile, manual: bool) -> Result<Session, String> {
+pub fn open_real(profile: Profile, manual: bool) -> Result<Session, String> {
+    open_real_layout(profile, manual, ConnCfg::default().layout)
+}
+
+/// the same with the client configured for another keyboard layout
+pub fn open_real_layout(mut profile: Profile, manual: bool, layout: u32) -> Result<Session, String> {
     profile.selected_protocol = 1;
     let d = Duplex::new(profile.clone());
     d.with(|s| {
@@ -25,11 +30,16 @@ pub fn open_real(mut profile: Profile, manual: bool) -> Result<Session, String> 
     let mut cfg = ConnCfg::default();
     cfg.nla = false;
     cfg.name = "c".into();
+    cfg.layout = layout;
     let client = client::connect_real(&cfg, d.clone()).map_err(|e| client::err_kind(&e))?;
     Ok(Session { client, server: d, profile })
 }
 
-pub fn open_plain(mut profile: Profile, manual: bool) -> Result<Session, String> {
+pub fn open_plain(profile: Profile, manual: bool) -> Result<Session, String> {
+    open_plain_layout(profile, manual, ConnCfg::default().layout)
+}
+
+pub fn open_plain_layout(mut profile: Profile, manual: bool, layout: u32) -> Result<Session, String> {
     profile.selected_protocol = 0;
     let d = Duplex::new(profile.clone());
     d.with(|s| {
@@ -38,6 +48,7 @@ pub fn open_plain(mut profile: Profile, manual: bool) -> Result<Session, String>
     });
     let mut cfg = ConnCfg::default();
     cfg.nla = false;
+    cfg.layout = layout;
     let client = client::connect_plain(&cfg, d.clone()).map_err(|e| client::err_kind(&e))?;
     Ok(Session { client, server: d, profile })
 }
